@@ -19,6 +19,8 @@ instance : Add K4 := ⟨fun a b => ⟨a.x + b.x, a.y + b.y, a.z + b.z, a.t + b.t
 instance : Sub K4 := ⟨fun a b => ⟨a.x - b.x, a.y - b.y, a.z - b.z, a.t - b.t⟩⟩
 instance : Neg K4 := ⟨fun a => ⟨-a.x, -a.y, -a.z, -a.t⟩⟩
 instance : Zero K4 := ⟨⟨0, 0, 0, 0⟩⟩
+/-- largest spatial index in modulus -/
+def spatial (k : K4) : Nat := max k.x.natAbs (max k.y.natAbs k.z.natAbs)
 end K4
 
 variable {κ K : Type}
@@ -86,6 +88,12 @@ def NDS.shift (g : κ) (s : NDS κ K) : NDS κ K :=
   let ks := NDS.uniq (s.keys ++ s.keys.map (· + g) ++ s.keys.map (· - g))
   NDS.ofFun ks (fun k => ⟨(s.get (k - g)).fp, conj (s.get (-k - g)).fp, (s.get k).z⟩) s.pd
 
+/-- `shiftnd` under a state cap (`max_nstate` / `nmax`): after the shift, the rows whose size exceeds `n` are dropped;
+    for `K4` the size is the largest *spatial* index (the accumulated-time column is not capped) -/
+def NDS.capShift (size : κ → Nat) (n : Nat) (g : κ) (s : NDS κ K) : NDS κ K :=
+  let s' := s.shift g
+  ⟨s'.ent.filter (fun e => size e.1 ≤ n), s'.pd⟩
+
 inductive NOp (κ K : Type) where
   | pt (op : Op K)
   | shift (g : κ)
@@ -95,6 +103,14 @@ def NDS.apply (s : NDS κ K) : NOp κ K → NDS κ K
   | .shift g => s.shift g
 
 def NDS.run (s : NDS κ K) (ops : List (NOp κ K)) : NDS κ K := ops.foldl NDS.apply s
+
+/-- the same program under a state cap -/
+def NDS.capApply (size : κ → Nat) (n : Nat) (s : NDS κ K) : NOp κ K → NDS κ K
+  | .pt op => s.point op
+  | .shift g => s.capShift size n g
+
+def NDS.capRun (size : κ → Nat) (n : Nat) (s : NDS κ K) (ops : List (NOp κ K)) : NDS κ K :=
+  ops.foldl (NDS.capApply size n) s
 
 /-- SPECIFICATION: Bloch isochromat whose position / off-resonance is the character `χ` of the wavenumber
     group: a shift by `g` is a precession by the phase of `χ g` -/
